@@ -88,7 +88,7 @@ def run(chk):
         "writer and headers flushed once (shared with C02); multipart declared size == bytes written (shared with C19)."
     )
     chk.not_decided = "that a payload's size equals what its write() produces for file / iterable payloads; under-run of a declared length by the application."
-    chk.explanation += " Also decided: every write_with_length implementation truncates to the remaining declared length; body data reaches the payload writer only when the response may have a body (HEAD/1xx/204/304 get none)."
+    chk.explanation += " Also decided: every write_with_length implementation truncates to the remaining declared length; body data reaches the payload writer only when the response may have a body (HEAD/1xx/204/304 get none). After the defect hunt: the stream compressor is not enabled on body-less responses; TextIOPayload declares a size only under the codec it writes with."
     mod = repo.module(HW)
     ser = repo.func(HW, "_py_serialize_headers")
     n = sanitise_block(chk, repo, folder, ser, "C04.san.block", "HTTP header block")
